@@ -26,20 +26,23 @@ type Table struct {
 
 // Backend is one scripted Livestatus server.
 type Backend struct {
-	mu        sync.Mutex
-	ID        string
-	Path      string
-	Tables    map[string]*Table
-	Mode      string // ok | refuse | garbage | badheader | truncate | wrongwidth | error500 | closeearly
-	FailAfter int    // answer this many more queries, then switch to FailMode (-1: never)
-	FailMode  string
-	Log       []string // every request text received
-	Commands  []string // every command line received
-	CmdReply  string   // reply to commands ("" = none)
-	Queries   int
-	listener  net.Listener
-	Now       func() time.Time
-	conns     map[net.Conn]bool
+	mu           sync.Mutex
+	ID           string
+	Path         string
+	Tables       map[string]*Table
+	Mode         string // ok | refuse | garbage | badheader | truncate | wrongwidth | error500 | closeearly
+	FailAfter    int    // answer this many more queries, then switch to FailMode (-1: never)
+	FailMode     string
+	Log          []string   // every request text received
+	Commands     []string   // every command line received
+	Batches      [][]string // the commands received, one list per connection
+	connSeq      int
+	takenBatches [][]string
+	CmdReply     string // reply to commands ("" = none)
+	Queries      int
+	listener     net.Listener
+	Now          func() time.Time
+	conns        map[net.Conn]bool
 }
 
 // New creates a backend listening on path.
@@ -125,6 +128,11 @@ func (b *Backend) serve(conn net.Conn) {
 		b.mu.Unlock()
 	}()
 	rd := bufio.NewReader(conn)
+	b.mu.Lock()
+	b.connSeq++
+	cid := b.connSeq
+	b.mu.Unlock()
+	batch := -1
 	for {
 		lines := []string{}
 		for {
@@ -150,7 +158,7 @@ func (b *Backend) serve(conn net.Conn) {
 			}
 			lines = append(lines, line)
 		}
-		keep := b.handle(conn, lines)
+		keep := b.handle(conn, lines, cid, &batch)
 		if !keep {
 			return
 		}
@@ -602,7 +610,7 @@ func (b *Backend) virtualCols(table string, row map[string]interface{}) map[stri
 	return full
 }
 
-func (b *Backend) handle(conn net.Conn, lines []string) (keep bool) {
+func (b *Backend) handle(conn net.Conn, lines []string, _ int, batch *int) (keep bool) {
 	b.mu.Lock()
 	defer b.mu.Unlock()
 	text := strings.Join(lines, "\n")
@@ -624,6 +632,13 @@ func (b *Backend) handle(conn net.Conn, lines []string) (keep bool) {
 	}
 	if req.command != "" {
 		b.Commands = append(b.Commands, req.command)
+		if *batch < 0 {
+			b.Batches = append(b.Batches, nil)
+			*batch = len(b.Batches) - 1
+		}
+		if *batch < len(b.Batches) {
+			b.Batches[*batch] = append(b.Batches[*batch], req.command)
+		}
 		switch mode {
 		case "closeearly", "refuse":
 			return false
@@ -632,7 +647,8 @@ func (b *Backend) handle(conn net.Conn, lines []string) (keep bool) {
 			_, _ = conn.Write([]byte(b.CmdReply + "\n"))
 		}
 
-		return req.keepalive
+		// like the core: further commands may follow on the same connection
+		return true
 	}
 	switch mode {
 	case "closeearly", "refuse":
@@ -695,6 +711,19 @@ func (b *Backend) TakeLog() (log []string, commands []string) {
 	defer b.mu.Unlock()
 	log, commands = b.Log, b.Commands
 	b.Log, b.Commands = nil, nil
+	b.takenBatches = b.Batches
+	b.Batches = nil
 
 	return
+}
+
+// TakenBatches returns the per-connection command batches removed by the last TakeLog.
+func (b *Backend) TakenBatches() [][]string {
+	b.mu.Lock()
+	defer b.mu.Unlock()
+	if b.takenBatches == nil {
+		return [][]string{}
+	}
+
+	return b.takenBatches
 }
